@@ -51,6 +51,7 @@ type conn interface {
 	Receive() (packet.Generic, error)
 	Close() error
 	SetReadTimeout(time.Duration)
+	SetReadLimit(int64)
 	SetMaxWriteDelay(time.Duration)
 }
 
@@ -78,7 +79,7 @@ func pair(kind string, plan []int) (*link, error) {
 		return &link{s: transport.NewBaseConn(a), r: transport.NewBaseConn(b), sc: a, rc: b, done: func() { a.Close(); b.Close() }}, nil
 	case "pipe":
 		a, b := net.Pipe()
-		return &link{s: transport.NewBaseConn(pipeCarrier{a}), r: transport.NewBaseConn(pipeCarrier{b}), done: func() { a.Close(); b.Close() }}, nil
+		return &link{s: transport.NewBaseConn(pipeCarrier{a}), r: transport.NewBaseConn(pipeCarrier{b}), done: func() { go func() { b.Close(); a.Close() }() }}, nil
 	case "tcp":
 		ln, err := net.Listen("tcp", "127.0.0.1:0")
 		if err != nil {
@@ -92,7 +93,9 @@ func pair(kind string, plan []int) (*link, error) {
 		if err != nil || a == nil {
 			return nil, fmt.Errorf("tcp pair: %v", err)
 		}
-		return &link{s: transport.NewNetConn(a), r: transport.NewNetConn(b), done: func() { a.Close(); b.Close() }}, nil
+		// (the peer's socket first and never on the caller's goroutine: closing a
+		// connection whose Send is stuck waits for that Send)
+		return &link{s: transport.NewNetConn(a), r: transport.NewNetConn(b), done: func() { go func() { b.Close(); a.Close() }() }}, nil
 	case "ws":
 		ln, err := net.Listen("tcp", "127.0.0.1:0")
 		if err != nil {
@@ -115,7 +118,8 @@ func pair(kind string, plan []int) (*link, error) {
 			return nil, fmt.Errorf("ws pair: %v %v", err, x.err)
 		}
 		a := transport.NewWebSocketConn(x.c)
-		return &link{s: a, r: b, done: func() { a.Close(); b.Close(); srv.Close() }}, nil
+		raw := x.c.UnderlyingConn()
+		return &link{s: a, r: b, done: func() { go func() { b.Close(); raw.Close(); a.Close(); srv.Close() }() }}, nil
 	}
 	return nil, fmt.Errorf("unknown carrier %q", kind)
 }
@@ -198,6 +202,27 @@ func try(name, hangSig, hangMsg string, f func() *verdict) (v *verdict) {
 	}
 }
 
+// waitProgress waits for done; it gives up (false) only when progress() has not
+// changed for a whole ceiling: a transfer that is slow (one-byte carrier chunks,
+// loaded machine) is not a hang as long as it moves.
+func waitProgress(done <-chan struct{}, progress func() int64) bool {
+	last, since := progress(), time.Now()
+	tick := time.NewTicker(20 * time.Millisecond)
+	defer tick.Stop()
+	for {
+		select {
+		case <-done:
+			return true
+		case <-tick.C:
+			if p := progress(); p != last {
+				last, since = p, time.Now()
+			} else if time.Since(since) > ev.Ceiling() {
+				return false
+			}
+		}
+	}
+}
+
 // operation counts of the last flow run on the in-memory carrier (for the fault enumeration)
 var lastSenderOps, lastReceiverOps int64
 
@@ -261,6 +286,7 @@ func runFlow(c *Case) *verdict {
 	// receiver
 	type got struct{ sender, seq int }
 	var received []got
+	var recvN int64
 	var recvErr error
 	var rv *verdict
 	rdone := make(chan struct{})
@@ -289,14 +315,20 @@ func runFlow(c *Case) *verdict {
 			}
 			last[s] = q
 			received = append(received, got{s, q})
+			atomic.AddInt64(&recvN, 1)
 		}
 	}()
+	progress := func() int64 {
+		n := atomic.LoadInt64(&order) + atomic.LoadInt64(&recvN)
+		if l.sc != nil {
+			n += l.sc.OpCount() + l.rc.OpCount()
+		}
+		return n
+	}
 	sendersDone := make(chan struct{})
 	go func() { wg.Wait(); close(sendersDone) }()
-	select {
-	case <-sendersDone:
-	case <-time.After(ev.Ceiling()):
-		return vf("hang/send", "a Send did not return within %v (carrier %s)", ev.Ceiling(), c.Carrier)
+	if !waitProgress(sendersDone, progress) {
+		return vf("hang/send", "a Send did not return although nothing moved for %v (carrier %s)", ev.Ceiling(), c.Carrier)
 	}
 	_ = total
 	once.Do(closer) // (no-op when a sender has already triggered it)
@@ -305,10 +337,8 @@ func runFlow(c *Case) *verdict {
 	for atomic.LoadInt32(&closed) == 0 && time.Now().Before(deadline) {
 		time.Sleep(50 * time.Microsecond)
 	}
-	select {
-	case <-rdone:
-	case <-time.After(ev.Ceiling()):
-		return vf("hang/receive", "the peer's Receive did not return within %v after the connection was closed", ev.Ceiling())
+	if !waitProgress(rdone, progress) {
+		return vf("hang/receive", "the peer's Receive did not return after the connection was closed although nothing moved for %v", ev.Ceiling())
 	}
 	if l.sc != nil {
 		lastSenderOps, lastReceiverOps = l.sc.OpCount(), l.rc.OpCount()
@@ -516,6 +546,94 @@ func runStall(c *Case) *verdict {
 	return nil
 }
 
+// ---- stall on a real carrier: the peer accepts and never reads; sends pile up
+// until one blocks in the carrier; then Receive fails (read timeout, or a packet
+// above the read limit) - it has to return, release the blocked Send and leave a
+// connection on which every further call fails at once.
+func runStallSocket(c *Case) *verdict {
+	l, err := pair(c.Carrier, nil)
+	if err != nil {
+		return vf("harness/pair", "%v", err)
+	}
+	defer l.done()
+	pub := packet.NewPublish()
+	pub.Message.Topic, pub.Message.Payload = "c19", payload(0, 0, 64*1024)
+	var sends int64
+	sendDone := make(chan error, 1)
+	go func() {
+		for {
+			if err := l.s.Send(pub, false); err != nil {
+				sendDone <- err
+				return
+			}
+			if atomic.AddInt64(&sends, 1) > 4000 { // 256 MiB: no loopback buffer is that large
+				sendDone <- nil
+				return
+			}
+		}
+	}()
+	// wait until the sender is stuck: no send completed for 100 ms
+	last, since, deadline := int64(-1), time.Now(), time.Now().Add(ev.Ceiling())
+	for time.Now().Before(deadline) {
+		if n := atomic.LoadInt64(&sends); n != last {
+			last, since = n, time.Now()
+		} else if time.Since(since) > 100*time.Millisecond {
+			break
+		}
+		time.Sleep(time.Millisecond)
+	}
+	select {
+	case err := <-sendDone:
+		return vf("harness/stall", "the sender ended (%v after %d sends) although the peer never read and nothing had failed", err, atomic.LoadInt64(&sends))
+	default:
+	}
+	how := map[int]string{0: "read timeout", 1: "packet above the read limit"}[c.Senders]
+	recvDone := make(chan error, 1)
+	switch c.Senders {
+	case 0:
+		go func() { l.s.SetReadTimeout(20 * time.Millisecond); _, err := l.s.Receive(); recvDone <- err }()
+	default:
+		l.s.SetReadLimit(64)
+		big := packet.NewPublish()
+		big.Message.Topic, big.Message.Payload = "c19", payload(1, 0, 300)
+		go func() { _ = l.r.Send(big, false) }()
+		go func() { _, err := l.s.Receive(); recvDone <- err }()
+	}
+	select {
+	case err := <-recvDone:
+		if err == nil {
+			return vf("stall/no-error", "Receive returned a packet (%s expected)", how)
+		}
+	case <-time.After(ev.Ceiling()):
+		return vf("hang/receive", "Receive hit a %s while a Send was stuck in the %s carrier (peer not reading, %d sends completed) and never returned", how, c.Carrier, atomic.LoadInt64(&sends))
+	}
+	select {
+	case err := <-sendDone:
+		if err == nil {
+			return vf("stall/send-no-error", "the blocked Send returned nil after the connection had failed")
+		}
+	case <-time.After(ev.Ceiling()):
+		return vf("hang/send", "the connection failed in Receive (%s), but the Send stuck in the %s carrier was never released", how, c.Carrier)
+	}
+	if v := try("Send", "hang/send", "Send after the failure did not return", func() *verdict {
+		if err := l.s.Send(pub, false); err == nil {
+			return vf("stall/send-accepted", "a flushed Send after the connection failed (%s) returned nil", how)
+		}
+		return nil
+	}); v != nil {
+		return v
+	}
+	if v := try("Receive", "hang/receive", "Receive after the failure did not return", func() *verdict {
+		if _, err := l.s.Receive(); err == nil {
+			return vf("stall/receive-succeeds", "Receive after the connection failed (%s) returned a packet", how)
+		}
+		return nil
+	}); v != nil {
+		return v
+	}
+	return try("Close", "hang/close", "Close after the failure did not return", func() *verdict { _ = l.s.Close(); return nil })
+}
+
 func runCase(c *Case) *verdict {
 	switch c.Kind {
 	case "flow":
@@ -527,6 +645,9 @@ func runCase(c *Case) *verdict {
 	case "unblock":
 		return runUnblock(c)
 	case "stall":
+		if c.Carrier != "mem" && c.Carrier != "" {
+			return runStallSocket(c)
+		}
 		return runStall(c)
 	}
 	return vf("harness/kind", "unknown kind %q", c.Kind)
@@ -547,14 +668,34 @@ func genFlow(rt *rapid.T) *Case {
 	if c.Carrier == "mem" {
 		if rapid.Bool().Draw(rt, "planned") {
 			c.Plan = rapid.SliceOfN(rapid.IntRange(1, 5000), 1, 6).Draw(rt, "plan")
+			// bound the number of carrier reads (bytes / mean chunk): a few MB in
+			// one- or two-byte chunks is minutes of copying and no new behaviour
+			sum := 0
+			for _, n := range c.Plan {
+				sum += n
+			}
+			for c.PerSender > 1 && flowBytes(c)*len(c.Plan)/sum > 150000 {
+				c.PerSender /= 2
+			}
+			if c.CloseAt > c.Senders*c.PerSender {
+				c.CloseAt = c.Senders * c.PerSender
+			}
 		}
 	}
 	return c
 }
 
+func flowBytes(c *Case) int {
+	total := 0
+	for idx := 0; idx < c.Senders*c.PerSender; idx++ {
+		total += c.Sizes[idx%len(c.Sizes)]
+	}
+	return total
+}
+
 func TestC19(t *testing.T) {
 	run := ev.Start("C19", "fault_enumeration")
-	run.Rule("(flow) 1-16 goroutines send numbered, self-checking PUBLISH packets (1 B - 20 KiB, generated async flags, flush delay 0/1/5/50 ms) on one BaseConn over the in-memory carrier (optional read re-chunking), a socket-like net.Pipe, TCP loopback (NetConn) and WebSocket loopback (WebSocketConn); Close is called by another goroutine after a generated number of sends or after all; on the in-memory carrier every run is repeated with the k-th carrier operation (Read/Write/Close/SetReadDeadline) failing, for EVERY k (up to the operation count of the fault-free run, at most 150 per side) on the sender side and on the receiver side. Oracle: every decoded packet is intact, per sender in order, never duplicated; every packet whose Send returned nil before Close was called is received before the end of the stream; every call returns within 10 s. (afterclose / timeout / unblock / stall) after Close, after the peer closed, after an expired read timeout: a flushed Send fails at once, buffered Sends fail once the flush delay has elapsed, Receive fails, a second Close returns, nothing panics or blocks; Close unblocks a pending Receive; a Receive that fails while a Send is stuck in the carrier returns and releases that Send - on all four carriers where applicable. non-trivial = >= 2 senders with a packet above 4096 bytes, a Close while sends are in progress, or a carrier fault; distinct by case")
+	run.Rule("(flow) 1-16 goroutines send numbered, self-checking PUBLISH packets (1 B - 20 KiB, generated async flags, flush delay 0/1/5/50 ms) on one BaseConn over the in-memory carrier (optional read re-chunking), a socket-like net.Pipe, TCP loopback (NetConn) and WebSocket loopback (WebSocketConn); Close is called by another goroutine after a generated number of sends or after all; on the in-memory carrier every run is repeated with the k-th carrier operation (Read/Write/Close/SetReadDeadline) failing, for EVERY k (up to the operation count of the fault-free run, at most 150 per side) on the sender side and on the receiver side. Oracle: every decoded packet is intact, per sender in order, never duplicated; every packet whose Send returned nil before Close was called is received before the end of the stream; every call returns within 10 s. (afterclose / timeout / unblock / stall) after Close, after the peer closed, after an expired read timeout: a flushed Send fails at once, buffered Sends fail once the flush delay has elapsed, Receive fails, a second Close returns, nothing panics or blocks; Close unblocks a pending Receive; a Receive that fails (read timeout; garbage or a packet above the read limit) while a Send is stuck in the carrier because the peer stopped reading (socket buffers full on TCP / WebSocket loopback) returns, releases that Send, and every later call fails at once - on all four carriers. non-trivial = >= 2 senders with a packet above 4096 bytes, a Close while sends are in progress, or a carrier fault; distinct by case")
 	run.Assume("net.Pipe is wrapped so that SetReadDeadline keeps working after the peer closed, as on a socket (BaseConn gives up a decoded packet when resetting the deadline fails)", "schedules of the concurrent senders are sampled under the race detector")
 	defer run.Finish(t)
 	faultRuns := 0
@@ -599,13 +740,15 @@ func TestC19(t *testing.T) {
 				}
 			}
 		}
-		for _, how := range []int{0, 1} {
-			c := &Case{Kind: "stall", Carrier: "mem", Senders: how}
-			if v := exec(c); v != nil {
-				run.Violation(v.sig, v.msg, c)
+		for _, car := range []string{"mem", "pipe", "tcp", "ws"} {
+			for _, how := range []int{0, 1} {
+				c := &Case{Kind: "stall", Carrier: car, Senders: how}
+				if v := exec(c); v != nil {
+					run.Violation(v.sig+":"+car, v.msg, c)
+				}
 			}
 		}
-		run.Exhaustive("after-close / peer-closed / read-timeout / unblock behaviour on each of the 4 carriers; stall with read timeout and with decode error")
+		run.Exhaustive("after-close / peer-closed / read-timeout / unblock behaviour on each of the 4 carriers; stall (a Send stuck because the peer does not read) ended by a read timeout and by a decode / read-limit error, on each of the 4 carriers")
 	}
 	run.Rapid(t, "flow", ev.Pick(250, 12000), func(rt *rapid.T) {
 		c := genFlow(rt)
